@@ -27,6 +27,11 @@ def overlay(o):
                      # fixarray
                      "old(self).remaining@.len() >= 1 && 0x90 <= old(self).remaining@[0] <= 0x9f ==> r.is_ok() && r.unwrap() == (old(self).remaining@[0] & 0x0f) as usize"
                      " && final(self).remaining@ == old(self).remaining@.subrange(1, old(self).remaining@.len() as int)",
+                     # array 16 / array 32: the length is the BIG-endian integer of the next 2 / 4 bytes (MessagePack), which are consumed
+                     "old(self).remaining@.len() >= 3 && old(self).remaining@[0] == 0xdc ==> r.is_ok() && r.unwrap() as int == old(self).remaining@[1] as int * 256 + old(self).remaining@[2] as int"
+                     " && final(self).remaining@ == old(self).remaining@.subrange(3, old(self).remaining@.len() as int)",
+                     "old(self).remaining@.len() >= 5 && old(self).remaining@[0] == 0xdd ==> r.is_ok() && r.unwrap() as int == old(self).remaining@[1] as int * 16777216 + old(self).remaining@[2] as int * 65536"
+                     " + old(self).remaining@[3] as int * 256 + old(self).remaining@[4] as int && final(self).remaining@ == old(self).remaining@.subrange(5, old(self).remaining@.len() as int)",
                      # anything that is not an array tag is rejected
                      "old(self).remaining@.len() >= 1 && !(0x90 <= old(self).remaining@[0] <= 0x9f) && old(self).remaining@[0] != 0xdc && old(self).remaining@[0] != 0xdd ==> r.is_err()",
                      # the reader never grows
